@@ -202,25 +202,40 @@ def walk(cfg: CFG, start: int, env: Env, stop: Callable[[int], bool] = lambda n:
                 atom_names[t] = names_in(ast.parse(t, mode='eval'))
             except SyntaxError:
                 atom_names[t] = set()
-    seen: Set[Tuple[int, frozenset, frozenset]] = set()
+    seen: Set[Tuple[int, frozenset, frozenset, frozenset]] = set()
     out: Set[int] = set()
+    # constant facts established on the path: `x = None` / `x = True` / `x = False` (and their loss when x is rebound to
+    # something else) decide later tests `x is None`, `x is not None`, `x`, `not x`
+    def with_facts(facts: frozenset) -> Env:
+        if not facts:
+            return env
+        e2 = Env(dict(env.atoms), dict(env.ints), env.hook, dict(env.strs))
+        for name, val in facts:
+            if val == 'none':
+                e2.atoms.setdefault(f"{name} is None", True)
+            elif val == 'notnone':
+                e2.atoms.setdefault(f"{name} is None", False)
+            else:
+                e2.atoms.setdefault(name, val)
+                e2.atoms.setdefault(f"{name} is None", False)
+        return e2
     # state: (node, atoms evaluated so far on this path, atoms whose valuation no longer applies)
     # An assignment invalidates an atom only if the atom was already evaluated before it on this path: the valuation
     # describes the value the atom has when it is (first) tested.
-    work: List[Tuple[int, frozenset, frozenset]] = [(start, frozenset(), frozenset())]
+    work: List[Tuple[int, frozenset, frozenset, frozenset]] = [(start, frozenset(), frozenset(), frozenset())]
     test_atoms: Dict[int, frozenset] = {}
     while work:
-        n, used, dead = work.pop()
-        if (n, used, dead) in seen:
+        n, used, dead, facts = work.pop()
+        if (n, used, dead, facts) in seen:
             continue
-        seen.add((n, used, dead))
+        seen.add((n, used, dead, facts))
         out.add(n)
         if stop(n) or n == loop_header_stop and n != start:
             continue
         nd = cfg.nodes[n]
         if nd.kind == 'test':
             is_match = isinstance(nd.stmt, getattr(ast, 'Match', ()))
-            v = env.eval(nd.expr, set(dead)) if not is_match else None
+            v = with_facts(facts).eval(nd.expr, set(dead)) if not is_match else None
             if n not in test_atoms:
                 ta = set(collect_atoms(nd.expr)) if not is_match else set()
                 subs = {norm(x) for x in ast.walk(nd.expr)} | {_norm(x) for x in ast.walk(nd.expr)}
@@ -235,18 +250,31 @@ def walk(cfg: CFG, start: int, env: Env, stop: Callable[[int], bool] = lambda n:
                 if l in skip_labels: continue
                 if v is True and l == 'false': continue
                 if v is False and l == 'true': continue
-                work.append((b, used2, dead))
+                work.append((b, used2, dead, facts))
             continue
         newdead = dead
+        newfacts = facts
         if nd.kind in ('stmt', 'for', 'with'):
             asg = assigned_names(nd.stmt)
             if asg:
                 kill = {t for t, ns in atom_names.items() if ns & asg and t in used}
                 if kill:
                     newdead = dead | frozenset(kill)
+                newfacts = frozenset((k, v) for k, v in facts if k not in asg)
+                st = nd.stmt
+                if nd.kind == 'stmt' and isinstance(st, ast.Assign) and len(st.targets) == 1 and isinstance(st.targets[0], ast.Name):
+                    tname = st.targets[0].id
+                    # only names the valuation itself does not speak about
+                    if tname not in env.atoms and f"{tname} is None" not in env.atoms:
+                        if isinstance(st.value, ast.Constant) and st.value.value is None:
+                            newfacts = newfacts | {(tname, 'none')}
+                        elif isinstance(st.value, ast.Constant) and isinstance(st.value.value, bool):
+                            newfacts = newfacts | {(tname, st.value.value)}
+                        elif isinstance(st.value, (ast.Constant, ast.List, ast.Tuple, ast.Dict, ast.Set, ast.ListComp, ast.DictComp, ast.SetComp, ast.JoinedStr, ast.Compare, ast.BinOp)):
+                            newfacts = newfacts | {(tname, 'notnone')}
         for b, l in cfg.succ[n]:
             if l in skip_labels: continue
-            work.append((b, used, newdead))
+            work.append((b, used, newdead, newfacts))
     return out
 
 
